@@ -62,7 +62,7 @@ fn main() {
     for i in 0..n {
         let mut srng = rng.fork();
         let w = match family {
-            "conflict" | "converge" | "hist" | "conflictdiff" | "conflictpatch" | "rollbackc" | "isoconf" | "richconf" => {
+            "conflict" | "converge" | "hist" | "conflictdiff" | "conflictpatch" | "rollbackc" | "isoconf" | "richconf" | "migrateconf" => {
                 use serde_json::json;
                 if family == "isoconf" || family == "richconf" {
                     amverif::proj::set_rich(true);
@@ -73,6 +73,7 @@ fn main() {
                 prof.nkeys = 1 + (i % 2);
                 prof.counter_heavy = true;
                 prof.max_len = 4;
+                prof.stringy = family == "migrateconf";
                 let cval = |n: i64| json!({"k":"counter","s":"","n":n,"toks":[]});
                 let base = vec![
                     json!({"fn":"put_object","obj":[0,0],"key":"l","ty":"list"}),
@@ -148,7 +149,7 @@ fn main() {
                 };
                 scen::graph_scenario(i, &mut srng, &o, family)
             }
-            "doc" | "doctext" | "docinv" | "histdoc" | "reload" | "rollback" | "iso" | "diff" | "patch" | "ids" | "migrate" | "badargs" | "isorich" => {
+            "doc" | "doctext" | "docinv" | "histdoc" | "reload" | "rollback" | "iso" | "diff" | "patch" | "ids" | "idshi" | "migrate" | "badargs" | "isorich" => {
                 if family == "isorich" {
                     amverif::proj::set_rich(true);
                 }
@@ -178,7 +179,7 @@ fn main() {
                     automerge::TextEncoding::UnicodeCodePoint
                 };
                 let o = scen::GraphOpts {
-                    weights: if family == "reload" || family == "ids" { scen::W_RELOAD } else if family == "iso" || family == "isorich" { scen::W_ISO } else if family == "migrate" { scen::W_CONFLICT } else { scen::W_DOC },
+                    weights: if family == "reload" || family == "ids" { scen::W_RELOAD } else if family == "iso" || family == "isorich" || family == "idshi" { scen::W_ISO } else if family == "migrate" { scen::W_CONFLICT } else { scen::W_DOC },
                     twin_start: false,
                     base_calls: vec![],
                     readat: if family == "histdoc" { 10 } else if family == "reload" { 6 } else { 0 },
